@@ -14,7 +14,8 @@ func (ctx *Ctx) genLemma(l *Lemma) *FuncVC {
 	g.declare("W0", SInt)
 	g.emit("(assert (>= W0 1))")
 	g.declare("tok0", SInt)
-	st := &State{cond: boolLit(true), heap: map[string]Term{}, ep: g.newEpoch(), W: Term{S: "W0", Sort: SInt}, tok: Term{S: "tok0", Sort: SInt}}
+	g.declare("ftok0", SInt)
+	st := &State{cond: boolLit(true), heap: map[string]Term{}, ep: g.newEpoch(), W: Term{S: "W0", Sort: SInt}, tok: Term{S: "tok0", Sort: SInt}, ftok: Term{S: "ftok0", Sort: SInt}, esc: boolLit(false)}
 	g.entryW = st.W
 	var pkg *types.Package
 	if p := ctx.typPkgs[l.Pkg]; p != nil {
